@@ -28,6 +28,9 @@ const FNAMES: [&str; 5] = ["ASCIIHexDecode", "ASCII85Decode", "RunLengthDecode",
 
 fn gen_case(s: &mut Src) -> Case {
     let v = gen_value(s, &GenOpts { depth: 2, refs: true, max_str: 10, wide_names: false }, 0);
+    // an object whose whole value is a reference to one of this document's own objects could form a reference loop
+    // (an error by design); keep top-level references pointing outside the document
+    let v = match v { V::Ref(n, g) if n < 64 => V::Ref(n + 1000, g), v => v };
     let kind = match &v { V::Int(_) => "v_int", V::Real(_) => "v_real", V::Ref(..) => "v_ref", V::Name(_) => "v_name", V::Bool(_) | V::Null => "v_keyword", V::Str(_) => "v_string", V::Arr(_) => "v_array", V::Dict(_) => "v_dict" };
     if kind != "v_int" { s.label(kind); }
     let n_members = 1 + s.draw(4) as usize;
